@@ -1466,6 +1466,37 @@ def norm_method(ctx, rel: str, clsname: str, name: str, keep=()):
     return fs[0]
 
 
+def parent_map(root):
+    """{id(child): parent} over the whole subtree"""
+    out = {}
+    for p_ in ast.walk(root):
+        for c_ in ast.iter_child_nodes(p_):
+            out[id(c_)] = p_
+    return out
+
+
+def expr_guards(parents, node):
+    """Expression-level guards under which ``node`` is evaluated: [(test expression, "T"/"F")] from enclosing conditional expressions (`a if t else b`) and short-circuit
+    operators (`t and x`, `t or x`), innermost first.  Stops at the enclosing statement."""
+    out = []
+    cur = node
+    while id(cur) in parents:
+        par = parents[id(cur)]
+        if isinstance(par, ast.stmt):
+            break
+        if isinstance(par, ast.IfExp):
+            if cur is par.body:
+                out.append((par.test, "T"))
+            elif cur is par.orelse:
+                out.append((par.test, "F"))
+        elif isinstance(par, ast.BoolOp):
+            i = next((k for k, v in enumerate(par.values) if v is cur), 0)
+            for v in par.values[:i]:
+                out.append((v, "T" if isinstance(par.op, ast.And) else "F"))
+        cur = par
+    return out
+
+
 def flag_feasible_path(g, start, goal, must_take=None, avoid=(), exc=False, limit=20000):
     """Is there a path start -> goal that is FEASIBLE with respect to local None-flags?  Local names assigned the constant None, a constructor / literal (not None) are tracked
     along the path; tests `x is None` / `x is not None` / `x` / `not x` on a tracked name prune the infeasible edge (a flag set under one test and read under a later one, the
